@@ -1,13 +1,14 @@
-\* content and copy-on-write (cow_full): two handles; alloc / dup / free / resize / fill / map r,w / check
+\* content and copy-on-write: alloc / dup / view / free / resize / fill / poke / map r,w / check / bread / bpoke (thorough: three handles, 5 operations)
 CONSTANTS
-  Geos <- GS_cow_full
-  Handles = {0, 1}
-  MaxOps = 6
-  MaxResize = 2
+  Geos = {"cow_full"}
+  GeoSet <- PicGeoSet
+  Handles = {0, 1, 2}
+  MaxOps = 5
+  MaxResize = 1
   Variant = "none"
   Record = FALSE
 SPECIFICATION Spec
 VIEW View
 INVARIANT WindowsInCanvas Inside InjectiveMap CanvasInjective GranularityP MapIsWindowCell AllocGranular WriteOnlySingle DupSees
-PROPERTY CropPreserves Isolation StructuralOpsDontWrite
+PROPERTY CropPreserves StructuralOpsDontWrite Isolation
 CHECK_DEADLOCK FALSE
